@@ -71,8 +71,8 @@ CHECKS.update({
  "C13": dict(
   text=("Deductive proof, via a ghost call log appended by the call rule for Handler4/Handler6 values, that HandleMsg4/HandleMsg6 invoke l.handlers[0..k) in slice order, each once, each with the original request and the response returned by its predecessor, "
         "stopping after the first handler that signals stop (k < len only then); what is sent is the last response, and nothing is sent when it is nil. `Built-in handlers return nil only together with stop` is a clause of the type contracts proved for every built-in handler. "
-        "plugins.LoadPlugins (second ghost log, of setup calls): every setup call is made through the plugin registered under the listed name, every handler appended is the non-nil result of the setup call just made, on success the number of handlers per protocol equals the number of setup calls, and any error (unknown name, failing setup, nil handler) returns no handlers."),
-  note=SRV_NOTE + " Not covered: server.Start (that the listeners are given the slices LoadPlugins returned: goroutines and sockets, not under contract); order preservation by append is covered per iteration (the appended element is the latest setup result), not as a whole-slice equality. The LoadPlugins contract assumes (preserves clause) that setup functions cannot reach the configuration object or the plugin registry.",
+        "plugins.LoadPlugins (second ghost log, of setup calls): every setup call is made through the plugin registered under the listed name, every handler appended is the non-nil result of the setup call just made, on success the number of handlers per protocol equals the number of setup calls, and any error (unknown name, failing setup, nil handler) returns no handlers. server.Start: every listener appended to the server (and served) was given exactly the handler slice of its protocol that LoadPlugins returned (keyed assertions), and LoadPlugins' preconditions hold there."),
+  note=SRV_NOTE + " Order preservation by append is covered per iteration (the appended element is the latest setup result), not as a whole-slice equality. The LoadPlugins contract assumes (preserves clause) that setup functions cannot reach the configuration object or the plugin registry.",
   technique="contract-based deductive verification: ghost call log, quantified loop invariant, function-type contracts", ref="DESIGN.md section 7 (C13)"),
  "C14": dict(
   text=("Deductive proof of the RFC 8415 section 16 decision matrix as a postcondition of serverid.Handler6 (discard iff SOLICIT/CONFIRM/REBIND carry a Server Identifier, REQUEST/RENEW/DECLINE/RELEASE carry none, or the identifier differs), and that a passed reply "
@@ -96,7 +96,7 @@ CHECKS.update({
   text=("Deductive proof on the real prefix.(*Handler).Handle (six nested loops, each with an inductive invariant): no panic and no exit with the plugin mutex held for any request and any lease table (safety and lock obligations); "
         "every IA_PD of the request is answered by exactly one IA_PD option with the same IAID (the response gains one option 25 per request IA_PD unless the handler stops with nil); the handler's state invariant is established by setupPrefix "
         "(receiver-invariant obligation) and preserved. The lease handed out and recorded for a new allocation is the block the allocator returned (keyed assertions); leases of different client identifiers are kept under different keys (recordKey = wire form of the DUID). That delegated blocks are in the pool, aligned, correctly sized and disjoint is the allocator's contract (C04/C05), which setupPrefix is proved to call with a well-formed IPv6 pool. "
-        "Lifetimes (positive, preferred <= valid <= 1h) are NOT proved (time arithmetic is uninterpreted)."),
+        "Lifetimes: every lease put into a reply (new, exactly matched or re-offered) runs at least a full lease duration from the latest clock reading when it is sent - in particular a renewed lease is sent as renewed, not from a stale copy (precondition of addPrefix over the assumed time model); preferred = valid by construction. NOT proved: the upper bound valid <= 1h (needs an invariant over every stored expiry) and positivity beyond `the handler takes less than the lease duration between reading the clock and building the option`."),
   note=PFX_NOTE, technique="contract-based deductive verification: loop invariants, safety/lock obligations, structural postcondition over ghost option counts", ref="DESIGN.md section 7 (C08, C09)"),
  "C09": dict(
   text=("Deductive proof on prefix.(*Handler).Handle of (a) the loop invariant `the list that will be recorded for the client grows by exactly one entry per successful allocation made while answering this IA_PD` (every delegated prefix is remembered, "
@@ -125,7 +125,7 @@ CHECKS.update({
   text=("Deductive check of three obligations that contracts on /repo code can express. (i) Every row the handler writes must be loadable by loadRecords, i.e. net.ParseMAC accepts the stored text of the hardware address "
         "(precondition of saveIPAddress at both call sites in Handler4, source-derived contracts of HardwareAddr.String and ParseMAC): REFUTED on the pinned tree for every hardware-address length other than 6, 8 and 20 (replayed: restart fails), listed as a known finding, proved outside that input class. "
         "(ii) Over a ghost view of the database (one row per hardware-address text, replaced by a successful saveIPAddress): while no write has failed, the database holds exactly the bindings of the in-memory table with their addresses and expiries - an invariant of the table's mutex, proved at every release and after setupRange. "
-        "(iii) Expiry: every row written, and the record kept for the client, expires no earlier than latest-clock-reading + lease time in whole seconds (precondition of saveIPAddress and postcondition of Handler4), over an assumed linear model of package time. Plus safety of the storage functions."),
+        "(iii) Expiry: every row written, and the record kept for the client, expires no earlier than latest-clock-reading + lease time in whole seconds (precondition of saveIPAddress and postcondition of Handler4), over an assumed linear model of package time. (iv) Restart: setupRange re-marks every loaded binding in the allocator at its stored address (exactly one successful allocation per record, re-marked addresses outstanding and pairwise different) or refuses to start, so a restart never leaves a stored binding's address free for another client. Plus safety of the storage functions."),
   note=SRV_NOTE + " sqlite (cgo) is outside the verifier: database/sql calls are assumed not to touch Go memory; what the database stores and returns (column affinity, atomicity, crash points inside a statement) is NOT modelled - two TRUSTED clauses stand for it (saveIPAddress replaces the client's row or fails leaving the view unchanged; the table loadRecords returns is the database view) and no bounded stand-in is run. After a failed write (only logged by the handler) nothing is claimed. time.spec (assumed): monotone clock, exact Add/Before/Unix/Round in (seconds, nanoseconds) pair form for 1970..2220 and lease times of 0..~95 years; stored expiries are taken to be plausible Unix times (0..8e9 s).",
   technique="contract-based deductive verification: precondition at call sites; known-finding carve-out re-proved", ref="DESIGN.md section 7 (C03)"),
  "C10": dict(
